@@ -22,16 +22,16 @@ for src in (o, t):
         if l.startswith('import ') and l not in imps:
             imps.append(l)
 def handlers(src):
-    m = re.search(r'def allHandlers[^\n]*:=\n((?:  .*\n)+)', src)
+    m = re.search(r'def allHandlers[^\n]*:=\n((?:(?:  .*)?\n)+?)(?=def )', src)
     body = ' '.join(x.strip() for x in m.group(1).splitlines())
-    return [h.strip() for h in body.split('++')]
+    return [h.strip() for h in body.split('++') if h.strip() and h.strip() != 'Drv.Solver.handlers']
 hs = []
 for src in (o, t):
     for h in handlers(src):
         if h not in hs:
             hs.append(h)
 body = re.sub(r'^(import .*\n)+', '\n'.join(imps) + '\n', o, count=1, flags=re.M)
-body = re.sub(r'(def allHandlers[^\n]*:=\n)((?:  .*\n)+)', lambda m: m.group(1) + '  ' + ' ++\n  '.join(hs) + '\n', body)
+body = re.sub(r'(def allHandlers[^\n]*:=\n)((?:(?:  .*)?\n)+?)(?=def )', lambda m: m.group(1) + '  ' + ' ++\n  '.join(hs) + '\n\n', body)
 open(f'{V}/lean/Main.lean', 'w').write(body)
 subprocess.run([f'{V}/harness/gen_manifest.py'])
 subprocess.run(['git', '-C', V, 'add', 'known_findings.json', 'lean/Main.lean', 'MANIFEST.json'])
